@@ -2,6 +2,7 @@
 mod checks;
 mod decode;
 mod explore;
+mod liqhandlers;
 mod ops;
 mod oracles;
 mod poolexplore;
